@@ -583,3 +583,46 @@ func ruleMeanDef(r *core.Reporter) {
 		r.Violated("counter.decr", fnPos(p, decr), "counter.decr does not atomically subtract its step (two's complement add)")
 	}
 }
+
+func init() {
+	register(&core.Rule{ID: "R-STATS-UNCONDITIONAL", Props: []string{"C17"}, Doc: "the exported counter wrappers of package stats update the in-process counter on every path: in each exported function that calls a method on a field of globalStats (incr, decr, add, set, reset …), every path from the entry to a return passes such a call — the Prometheus mirror next to it is optional (nil when --prometheus is off) and must not gate, reorder before an early return, or replace the in-process update", Run: ruleStatsUnconditional})
+}
+
+func ruleStatsUnconditional(r *core.Reporter) {
+	p := r.P
+	n := 0
+	for _, fn := range p.FuncsInPkg(rel(pkgStats)) {
+		if fn.Parent() != nil || fn.Object() == nil || !fn.Object().Exported() || fn.Signature.Recv() != nil {
+			continue
+		}
+		onStats := func(in ssa.Instruction) bool {
+			cc := ir.AsCall(in)
+			if cc == nil || len(cc.Args) == 0 {
+				return false
+			}
+			callee := cc.StaticCallee()
+			if callee == nil || callee.Signature.Recv() == nil {
+				return false
+			}
+			return strings.Contains(ir.Path(cc.Args[0]), "stats.globalStats.")
+		}
+		has := false
+		allInstrs(fn, func(in ssa.Instruction) {
+			if onStats(in) {
+				has = true
+			}
+		})
+		if !has {
+			continue
+		}
+		n++
+		r.Analysed(fn)
+		key := core.FuncName(fn) + "/unconditional"
+		if ret, skip := ir.PathExists([]ir.Pt{ir.Entry(fn)}, ir.Opts{Stop: onStats}, ir.IsExit); skip {
+			r.Violated(key, p.InstrPos(ret), "%s can return without touching the in-process counter (an early return, typically in the optional Prometheus branch): that event is missing from the totals the crawler reports", fn.Name())
+		} else {
+			r.Held(key, 1, "in-process counter updated on every path")
+		}
+	}
+	r.Floor("exported stats wrappers", n, 20)
+}
